@@ -107,7 +107,7 @@ def judgeScheme (op : String) (out : List String) : PS Bool := do
     let impl := adjustNondelegable g1Ops sk.key parent.key from_ to_
     -- the property: equals qualifying the parent directly with `to`
     let pat' := match parent.pat with
-      | some (π, ρ) => if admissible π to_ && admissible π from_ && !to_.omitAll && !from_.omitAll then some (updatePattern π to_, ρ) else none
+      | some (π, ρ) => if admissible π to_ && admissible π from_ then some (updatePattern π to_, ρ) else none
       | none => none
     finishKey op out parent.pidx parent.g2alpha impl pat' none (nd := true)
   | "wk_precompute" =>
